@@ -434,8 +434,16 @@ def run_case2(case, hook=None):
     res, info = D.apply_op(impl, scope, op)
     rb = readback(impl, op[1], probes)
     if hook is not None:
-      hook(impl, n, scope, op, res, info, before)
-    outs.append([res, impl.snapshot(), rb])
+      try:
+        hook(impl, n, scope, op, res, info, before)
+      except Exception as e:      # pylint: disable=broad-except
+        # an exception inside the comparison (e.g. the container cannot be iterated any more) is a finding with this case as
+        # its witness, not a crash of the harness
+        if not getattr(hook, 'failed', False):
+          hook.failed = True
+          hook.hits.append(('C02/crash/%s/%s' % (op_name(op[0]), type(e).__name__),
+                            'comparing with the plain container after %s raises %s: %s' % (op_name(op[0]), type(e).__name__, str(e)[:160]), n))
+    outs.append([res, guarded(impl.snapshot), rb])
   return [snap0, outs]
 
 # ---- (c) the differential oracle ---------------------------------------------------------------------------------------------
